@@ -1748,9 +1748,11 @@ PPL::Grid::simplify_using_context_assign(const Grid& y) {
     // Search for a congruence of `y' that is not a tautology.
     PPL_ASSERT(y.congruences_are_up_to_date());
     Grid gr(x.space_dim, UNIVERSE);
+    bool contradiction_found = false;
     for (dimension_type i = y.con_sys.num_rows(); i-- > 0; ) {
       const Congruence& y_con_sys_i = y.con_sys[i];
       if (!y_con_sys_i.is_tautological()) {
+        contradiction_found = true;
         // Found: we obtain a congruence `c' contradicting the one we
         // found, and assign to `x' the grid `gr' with `c' as
         // the only congruence.
@@ -1772,6 +1774,11 @@ PPL::Grid::simplify_using_context_assign(const Grid& y) {
           break;
         }
       }
+    }
+    if (!contradiction_found) {
+      // `y' is the universe: only the empty grid has an empty meet with it.
+      Grid empty_gr(x.space_dim, EMPTY);
+      gr.m_swap(empty_gr);
     }
     m_swap(gr);
     PPL_ASSERT(OK());
